@@ -1,16 +1,154 @@
+import hashlib, json, os, re
+
+
+def _obs_after(c, opname):
+    """observations of the ops named `opname` in a transcript case"""
+    out, cur = [], None
+    for l in c["lines"]:
+        p = l.split(" ")
+        if p[0] == "op":
+            cur = p[1]
+        elif p[0] == "obs" and cur == opname:
+            out.append(" ".join(p[1:]))
+    return out
+
+
 def nontrivial(c):
-    return True
+    """part A: the REAL loader accepted the rules file and the case went on to start a sampler;
+    part B: at least one request was answered (any status)"""
+    if "part=B" in c["header"]:
+        return any(l.startswith("obs ") for l in c["lines"])
+    return any(o == "accept" for o in _obs_after(c, "load") + _obs_after(c, "loadfile")) and bool(_obs_after(c, "start"))
+
+
+def custom(vc, spec, tier, seed, replay):
+    """generic pipeline, then count from the transcripts what the real validator accepted/rejected
+    (only accepted configurations count for part A) and what the request fuzzing saw."""
+    spec2 = {k: v for k, v in spec.items() if k != "custom"}
+    rc = vc.generic_check(spec2, "C28", tier, seed, replay)
+    try:
+        d = os.path.join(vc.CACHE, "run", "C28" + ("" if vc.REPO == "/repo" else
+                                                   "-" + hashlib.sha1(vc.REPO.encode()).hexdigest()[:10]))
+        verdicts, starts, evals, reqs, kinds = {}, {}, {}, {}, {}
+        for f in sorted(os.listdir(d)):
+            if not re.fullmatch(r"(s\d+|corpus)\.tr", f):
+                continue
+            cur, accepted, kind = None, False, None
+            for l in open(os.path.join(d, f)):
+                p = l.rstrip("\n").split(" ")
+                if p[0] == "case":
+                    accepted, kind = False, "none"
+                elif p[0] == "op":
+                    cur = p[1]
+                    if cur == "leaf" and len(p) > 2:
+                        kind = p[2]
+                    elif cur == "rules":
+                        kind = "RulesBasedSampler"
+                    elif cur == "req" and len(p) > 2:
+                        cur = "req:" + p[2]
+                elif p[0] == "obs" and cur:
+                    o = p[1]
+                    if cur in ("load", "loadfile"):
+                        verdicts[o] = verdicts.get(o, 0) + 1
+                        accepted = o == "accept"
+                        if accepted:
+                            kinds[kind] = kinds.get(kind, 0) + 1
+                    elif cur == "start" and accepted:
+                        starts[o] = starts.get(o, 0) + 1
+                    elif cur == "eval" and accepted:
+                        evals[o if not o.startswith("ok") else "ok"] = evals.get(o if not o.startswith("ok") else "ok", 0) + 1
+                    elif cur.startswith("req:"):
+                        k = cur[4:] + " " + (o if not o.startswith("caught") else "caught-panic")
+                        reqs[k] = reqs.get(k, 0) + 1
+        acc = verdicts.get("accept", 0)
+        rej = sum(v for k, v in verdicts.items() if k != "accept")
+        vc.log("[C28] part A: real loader+validator ACCEPTED %d rules files, refused %d (%s)" % (
+            acc, rej, ", ".join("%s=%d" % kv for kv in sorted(verdicts.items()))))
+        vc.log("[C28] part A: accepted by sampler type: %s" % ", ".join("%s=%d" % kv for kv in sorted(kinds.items())))
+        vc.log("[C28] part A: start outcomes on accepted files: %s" % ", ".join("%s=%d" % kv for kv in sorted(starts.items())))
+        vc.log("[C28] part A: eval outcomes on accepted files: %s" % ", ".join("%s=%d" % kv for kv in sorted(evals.items())))
+        nreq = sum(reqs.values())
+        bad = {k: v for k, v in reqs.items() if k.split(" ")[1].startswith(("panic", "caught", "hang", "fatal"))}
+        vc.log("[C28] part B (FUZZING, not a theorem): %d malformed requests, %d panics/hangs" % (nreq, sum(bad.values())))
+        p = os.path.join(vc.VERIF, "evidence", "C28.json")
+        ev = json.load(open(p))
+        ev["coverage"]["part_A_validated_configs"] = {
+            "note": "only rules files the REAL loader+validator accepted count for part A",
+            "accepted": acc, "refused": rej, "verdicts": verdicts, "accepted_by_sampler_type": kinds,
+            "start_outcomes_on_accepted": starts, "eval_outcomes_on_accepted": evals}
+        ev["coverage"]["part_B_request_fuzzing"] = {
+            "note": "FUZZING in support of the search, not a theorem: no model of the request path; "
+                    "monitor = no panic (caught or not) and no request exceeding the per-request timeout",
+            "requests": nreq, "by_endpoint_and_answer": dict(sorted(reqs.items())), "panics_or_hangs": bad}
+        for s in ev["coverage"].get("samples", []):
+            if isinstance(s, dict) and "transcript" in s:
+                s["transcript"] = [t if len(t) <= 240 else t[:240] + "…(%d chars)" % len(t) for t in s["transcript"]]
+        vc.write_evidence("C28", ev)
+    except Exception as e:          # the add-on must never change the verdict
+        vc.log("[C28] statistics add-on skipped: %r" % (e,))
+    return rc
+
 
 SPEC = dict(
     property="C28",
     component="nocrash",
     props_module="Refinery.Props.C28",
     gen_module="Refinery.Gen.Nocrash",
-    quick=dict(cases=400, len=20, shards=4),
-    thorough=dict(cases=20000, len=20, shards=16),
+    custom=custom,
+    quick=dict(cases=600, len=32, shards=4),
+    thorough=dict(cases=24000, len=40, shards=16),
     nontrivial=nontrivial,
-    rule="TBD",
-    trusted_base=[],
-    manifest=dict(text="TBD", note="TBD", technique="TBD"),
-    assumptions=[],
+    rule="PART A (proof + correspondence): a case = one rules file generated type-directed over the REAL rulesMeta.yaml "
+         "(every sampler type; every key absent/present; boundary values 0, 1, -1, 2^31, 2^32-1, 2^32, 2^32+1, -2^32, 2^33, "
+         "MaxInt64, MinInt64, 2^63, 2^64-1; floats around 0 and 1; durations 0, 1ns, 1us, 1ms-1ns, 1ms, 1s … and negative ones; "
+         "field lists empty, with empty names, root./?. prefixes, 200-500 names, non-string members; null / scalar where a "
+         "mapping belongs; rules with 0-3 rules, 0-2 conditions, downstream samplers, `Sampler: {}`; a few wrong-typed values and "
+         "unknown keys), run through the real loader+validator (newFileConfig; 4% and the whole corpus through config.NewConfig on "
+         "real files), then NewCoreFieldsUnmarshaler, SamplerFactory.GetSamplerImplementationForKey and 1-3 GetSampleRate calls "
+         "under recover (a logger turns 'Exiting.' + os.Exit into an observable outcome; files with a negative duration are "
+         "started in a child process because dynsampler-go panics in a goroutine).  Every verdict and outcome is compared with the "
+         "Lean model; non-trivial = the real validator ACCEPTED the file and a sampler start was attempted (refused files only "
+         "exercise the validator model).  PART B (FUZZING in support of the search, NOT a theorem): one case in five is a stream of "
+         "8-40 malformed requests (truncated / bit-flipped / spliced with 4 GiB msgpack and 2^63 protobuf length prefixes, "
+         "2000-22000-deep msgpack/JSON/protobuf nesting, odd JSON and msgpack members; gzip/zstd well-formed, truncated, corrupted, "
+         "mis-announced; wrong and odd content types; odd samplerate/event-time headers) on /1/events, /1/batch, /v1/traces, "
+         "/v1/logs through the real mux and middleware, and on the gRPC trace/logs Export handlers in process, each under recover "
+         "and a 10 s timeout; non-trivial = answered.  Distinct by transcript hash.",
+    trusted_base=["gopkg.in/yaml.v3 decoding and the config loader as called (newFileConfig / NewConfig)",
+                  "config.MockConfig, transmit.MockTransmission, sharder.MockSharder, metrics.NullMetrics, a logger that turns "
+                  "'… Exiting.' into a panic (part A) / records panicCatcher's report (part B)",
+                  "dynsampler-go v0.6.4: only its Start defaults, the NewTicker goroutine, EMAThroughput's 1 ms refusal and the "
+                  "answer before the first tick are modelled; later answers are a parameter of the model",
+                  "the classification of recovered panics by their runtime error text"],
+    manifest=dict(
+        text="Lean model of rules-file validation (generic interpreter of the real rulesMeta.yaml table, read from the compiled code on "
+             "every run), YAML decoding, sampler construction (every sampler type, rules with downstream samplers) and the first "
+             "sampling decisions, with Go's partial operations (index, integer division, rand.Intn(n<=0), nil-map write, nil "
+             "dereference, os.Exit, NewTicker(d<=0) in a goroutine) as explicit outcomes.  Theorems: the full statement "
+             "(accepted => no crash) is REFUTED for the code as it is with nine machine-checked witnesses, one per panic site, "
+             "each reproduced end to end on the real code (YAML file -> config.NewConfig accepts -> real SamplerFactory/Start/"
+             "GetSampleRate panics, exits or kills a child process); valid_config_no_panic_partial holds under the exact extra "
+             "hypotheses (Benign) the validator does not enforce; valid_config_no_panic_fixed proves the full statement for the "
+             "proposed repairs for every metadata table and every later answer of the third-party samplers (model parameter "
+             "`fixed`, oracle `def variant`).  Model tied to the code by replaying generated rules files on the real loader, "
+             "validator, factory and samplers and comparing every verdict/outcome/rate.  Separately, as FUZZING and not as a theorem, "
+             "a malformed-bytes stream on every HTTP endpoint and the gRPC Export handlers of a real Router: any panic or hang is "
+             "reported with the request bytes as replay.",
+        note="PARTIAL by nature: third-party decoders (msgp, jsoniter, protobuf, gzip, zstd, husky) and the HTTP/gRPC stacks are not "
+             "modelled; the request half is sampled fuzzing only.  Trusted: Lean kernel; the differential check (sampled); "
+             "YAML decoding; the harness' classification of panics.  Peer traffic and the main (non-rules) configuration are out of scope.",
+        technique="Lean 4 proof (refutation by witnesses, partial theorem, full theorem for the repaired variant) + "
+                  "model/implementation correspondence check + request fuzzing (labelled as such)",
+    ),
+    assumptions=[
+        "int and uint are 64 bits wide (amd64/arm64)",
+        "one Samplers entry (__default__) with at most one sampler; a rule's Sampler mapping has at most one entry; "
+        "Rules / Conditions / Sampler keys are written as sequences / mappings (other shapes are refused by the real validator "
+        "and not generated); integer literals lie in [-2^63, 2^64)",
+        "which rule of a rules-based sampler matches a trace is an input of the model (computed by the real matching functions)",
+        "answers of the dynsampler-go samplers after their first tick are a parameter: non-negative in the partial theorem, "
+        "arbitrary in the theorem for the repaired code; evaluations of samplers whose ticker interval is under 1 s are not compared",
+        "only the main configuration `General.ConfigurationVersion: 2` is used; main-config validation is not part of the model",
+        "PART B IS FUZZING, NOT A THEOREM: it supports the search for crashing requests; absence of findings there proves nothing",
+    ],
 )
